@@ -5,7 +5,9 @@ package main
 import (
 	"crypto"
 	"crypto/ecdsa"
+	"crypto/elliptic"
 	"crypto/hmac"
+	"crypto/rand"
 	"crypto/rsa"
 	"crypto/sha256"
 	"crypto/x509"
@@ -158,6 +160,7 @@ type vfIdP struct {
 	mu     sync.Mutex
 	issuer string
 
+	keys      []*vfKey
 	Signing   int   // key index used for signing
 	Published []int // key indexes in the JWKS
 
@@ -181,15 +184,15 @@ type vfIdP struct {
 	DiscoveryExtra   map[string]interface{}
 	ATInvalid        map[string]bool // access tokens the validate endpoint refuses
 
-	Plan     func(c *vfIdpCall) vfIdpFault
-	Mint     func(m *vfMintCtx)
-	Userinfo func(c *vfIdpCall, claims map[string]interface{})
-	Latency  func(c *vfIdpCall) time.Duration
+	JWKSOverride func(c *vfIdpCall) []byte
+	Plan         func(c *vfIdpCall) vfIdpFault
+	Mint         func(m *vfMintCtx)
+	Userinfo     func(c *vfIdpCall, claims map[string]interface{})
+	Latency      func(c *vfIdpCall) time.Duration
 }
 
 func (w *vfWorld) StartIdP() *vfIdP {
-	vfLoadKeys()
-	p := &vfIdP{w: w, issuer: "http://" + vfIdpHost, users: map[string]*vfUser{}, codes: map[string]*vfCode{},
+	p := &vfIdP{w: w, keys: append([]*vfKey(nil), vfLoadKeys()...), issuer: "http://" + vfIdpHost, users: map[string]*vfUser{}, codes: map[string]*vfCode{},
 		rtIndex: map[string]*vfGrant{}, atGrant: map[string]*vfGrant{}, atGen: map[string]int{}, ATInvalid: map[string]bool{},
 		Signing: 0, Published: []int{0, 1, 2}, RefreshSupported: true, IDTokenTTL: 2 * time.Hour, AccessTTL: 2 * time.Hour}
 	p.AddUser(&vfUser{Name: "alice", Sub: "sub-alice", Email: "alice@example.com", EmailVerified: true, Groups: []string{"dev", "ops"}, PreferredUsername: "alice.p"})
@@ -201,6 +204,25 @@ func (w *vfWorld) StartIdP() *vfIdP {
 }
 
 func (p *vfIdP) AddUser(u *vfUser) { p.users[u.Name] = u }
+
+// RotateKey generates a fresh P-256 signing key (from the seeded crypto/rand), publishes it and
+// signs with it from now on: the proxy's cached key set does not know its kid, so the next
+// verification triggers a JWKS refetch.
+func (p *vfIdP) RotateKey() int {
+	k, err := ecdsa.GenerateKey(elliptic.P256(), rand.Reader)
+	if err != nil {
+		p.w.fatalf("keygen: %v", err)
+	}
+	der, _ := x509.MarshalPKIXPublicKey(k.Public())
+	p.mu.Lock()
+	defer p.mu.Unlock()
+	p.keys = append(p.keys, &vfKey{Kid: fmt.Sprintf("dyn-%d", len(p.keys)), Alg: "ES256", Priv: k,
+		PEM: string(pem.EncodeToMemory(&pem.Block{Type: "PUBLIC KEY", Bytes: der}))})
+	idx := len(p.keys) - 1
+	p.Published = append(p.Published, idx)
+	p.Signing = idx
+	return idx
+}
 
 func (p *vfIdP) mark() int {
 	p.mu.Lock()
@@ -256,7 +278,7 @@ func (p *vfIdP) SignJWT(claims map[string]interface{}, opt vfSignOpt) string {
 	if opt.Raw != "" {
 		return opt.Raw
 	}
-	keys := vfLoadKeys()
+	keys := p.keys
 	k := keys[opt.Key%len(keys)]
 	payload, err := json.Marshal(claims)
 	if err != nil {
@@ -374,7 +396,7 @@ func vfParseAT(at string) (grant, gen int, ok bool) {
 }
 
 func (p *vfIdP) jwks() []byte {
-	keys := vfLoadKeys()
+	keys := p.keys
 	set := jose.JSONWebKeySet{}
 	for _, i := range p.Published {
 		k := keys[i]
@@ -528,6 +550,12 @@ func (p *vfIdP) ServeHTTP(rw http.ResponseWriter, r *http.Request) {
 		call.Outcome = "200"
 		rw.Header().Set("Content-Type", "application/json")
 		rw.WriteHeader(200)
+		if p.JWKSOverride != nil {
+			if b := p.JWKSOverride(call); b != nil {
+				rw.Write(b)
+				break
+			}
+		}
 		rw.Write(p.jwks())
 	case "token:code":
 		p.tokenCode(rw, r, call, form)
@@ -559,8 +587,11 @@ type vfMangleWriter struct {
 	status int
 }
 
-func (m *vfMangleWriter) WriteHeader(s int)           { m.status = s }
-func (m *vfMangleWriter) Write(b []byte) (int, error) { m.buf = append(m.buf, b...); return len(b), nil }
+func (m *vfMangleWriter) WriteHeader(s int) { m.status = s }
+func (m *vfMangleWriter) Write(b []byte) (int, error) {
+	m.buf = append(m.buf, b...)
+	return len(b), nil
+}
 func (m *vfMangleWriter) finish() {
 	if m.status == 0 {
 		m.status = 200
@@ -820,3 +851,14 @@ func (p *vfIdP) plainValidate(rw http.ResponseWriter, r *http.Request, call *vfI
 
 var _ = ecdsa.PublicKey{}
 var _ = rsa.PublicKey{}
+
+// MintBearer builds an ID token for user as a client would present it in an Authorization header.
+func (p *vfIdP) MintBearer(user string, mutate func(claims map[string]interface{}, so *vfSignOpt)) string {
+	u := p.users[user]
+	c := p.BaseClaims(u, "")
+	so := vfSignOpt{Key: p.Signing}
+	if mutate != nil {
+		mutate(c, &so)
+	}
+	return p.SignJWT(c, so)
+}
